@@ -3,7 +3,7 @@
    Modelled Go code: middleware.go handleMultiPart (buffered variant), writeMultiPart,
    writeMultipartFormFile - run again on EVERY attempt by parseRequestBody - together with the
    file sources of request.go: SetFileBytes (fresh reader per call), SetFile (handle opened when
-   set, reopened when RetryAttempt > 0), SetFileReader (the caller's reader; when asked again it
+   set, a freshly opened file on every later call - 009781e), SetFileReader (the caller's reader; when asked again it
    is rewound if it is an io.Seeker, otherwise - or when Seek fails, e.g. on a closed os.File -
    GetFileContent returns an error; repaired tree, the pinned variant is [file_read_pinned]).
    writeMultipartFormFile: content := GetFileContent(); defer content.Close(); reads 512 bytes
@@ -35,7 +35,7 @@ Definition mark_used (f : mfile) : mfile :=
 Definition file_read (att : Z) (f : mfile) : option bytes :=
   match mf_kind f with
   | FBytes => Some (mf_content f)
-  | FPath => if mf_used f && (att <=? 0)%Z then None else Some (mf_content f)
+  | FPath => Some (mf_content f)       (* first call: the handle opened by SetFile; later calls: os.Open *)
   | FSeekNoClose => Some (mf_content f)
   | FSeekReader => Some (mf_content f)
   | FPlainReader => if mf_used f then None else Some (mf_content f)
